@@ -26,7 +26,7 @@ func getRateCounterBucketValue(ctx *context.Context, rc *value.Ratecounter, clie
 	case "50s":
 		duration = 50 * time.Second
 	case "60s":
-		duration = 50 * time.Second
+		duration = 60 * time.Second
 	default:
 		return nil, exception.Runtime(nil, "unexpected window %s found", window)
 	}
